@@ -48,7 +48,7 @@ const WEIRD: [&str; 8] = [
 /// what a failure is keyed by in the known-findings file: the panic site, or the shape of the error message
 fn construct_of(msg: &str) -> String {
     let m = msg.split(" @ ").collect::<Vec<_>>();
-    if m.len() == 2 { return format!("{} @ {}", m[0].chars().take(60).collect::<String>(), m[1]); }
+    if m.len() == 2 { return format!("{} @ {}", m[0].chars().take(60).collect::<String>(), m[1].split(':').next().unwrap_or("")); }
     // identifiers and numbers of the message are dropped
     let re = regex::Regex::new(r#"[`"'][^`"']*[`"']|\d+"#).unwrap();
     re.replace_all(msg, "_").chars().take(70).collect::<String>().trim().to_string()
@@ -61,7 +61,8 @@ fn one<T: RelationToQueryTranslator + QueryToRelationTranslator + Copy>(cx: &mut
         Err(_) => { cx.st.violation(json!({"kind":"translation-panics","dialect":name,"class":cx.class,"construct":construct_of(&last_panic()),"query":cx.sql,"panic":last_panic()})); return; } };
     cx.st.bump(&format!("translated_{}", name));
     let q = match catch_unwind(AssertUnwindSafe(|| parse_with_dialect(&text, t.dialect()))) { Ok(Ok(q)) => q,
-        Ok(Err(e)) => { cx.st.violation(json!({"kind":"translated-sql-rejected-by-the-dialect-parser","dialect":name,"class":cx.class,"construct":construct_of(&e.to_string()),"query":cx.sql,"error":e.to_string().chars().take(200).collect::<String>(),"translated":text.chars().take(500).collect::<String>()})); return; }
+        Ok(Err(e)) => { let f = format!("/tmp/c17_rejected_{}.sql", name); if std::env::var("QV_KEEP").is_ok() && !std::path::Path::new(&f).exists() { let _ = std::fs::write(&f, &text); }
+            cx.st.violation(json!({"kind":"translated-sql-rejected-by-the-dialect-parser","dialect":name,"class":cx.class,"construct":construct_of(&e.to_string()),"query":cx.sql,"error":e.to_string().chars().take(200).collect::<String>(),"translated":text.chars().take(500).collect::<String>()})); return; }
         Err(_) => { cx.st.violation(json!({"kind":"dialect-parser-panics","dialect":name,"class":cx.class,"query":cx.sql})); return; } };
     let back = match catch_unwind(AssertUnwindSafe(|| Relation::try_from((q.with(cx.relations), t)))) { Ok(Ok(r)) => r,
         Ok(Err(e)) => { cx.st.violation(json!({"kind":"translated-sql-not-read-back","dialect":name,"class":cx.class,"construct":construct_of(&e.to_string()),"query":cx.sql,"error":e.to_string().chars().take(200).collect::<String>(),"translated":text.chars().take(500).collect::<String>()})); return; }
@@ -99,6 +100,9 @@ pub fn run(outdir: &str, seed: u64, thorough: bool) -> serde_json::Value {
     let mut rng = Rng::new(seed ^ 0xC17);
     let mut st = Stats::default();
     let n = if thorough { 2500 } else { 150 };
+    // aggregation queries whose DP rewriting is translated: the last has an empty public key set
+    let dp_targeted = ["SELECT t.city AS k0, COUNT(t.income) AS a0 FROM users AS t GROUP BY t.city", "SELECT VARIANCE(t.amount) AS a0, STDDEV(t.amount) AS a1, AVG(t.amount) AS a2 FROM orders AS t",
+        "SELECT t.qty AS k0, COUNT(t.price) AS a1 FROM items AS t WHERE t.qty > 20 GROUP BY t.qty"];
     let mut made = 0; let mut attempts = 0;
     while made < n && attempts < n * 20 {
         attempts += 1;
@@ -108,16 +112,18 @@ pub fn run(outdir: &str, seed: u64, thorough: bool) -> serde_json::Value {
             let sql = WEIRD[attempts - 1].to_string();
             let Ok(Ok(rel)) = catch_unwind(AssertUnwindSafe(|| parse(&sql).map_err(|e| e.to_string()).and_then(|q| Relation::try_from(q.with(&weird)).map_err(|e| e.to_string())))) else { st.bump("odd_identifier_query_not_compiled"); continue };
             (sql, rel, &weird, "odd-identifiers")
-        } else if r.chance(1, 4) {
-            let sql = gen_agg_query(&mut r);
+        } else if attempts <= WEIRD.len() + dp_targeted.len() || (attempts > WEIRD.len() + dp_targeted.len() + 2 && r.chance(1, 4)) {
+            let sql = if attempts <= WEIRD.len() + dp_targeted.len() { dp_targeted[attempts - WEIRD.len() - 1].to_string() } else { gen_agg_query(&mut r) };
             let Ok(Ok(rel)) = catch_unwind(AssertUnwindSafe(|| to_relation(&w, &sql))) else { continue };
-            let p = gen_params(&mut r);
+            let p = if attempts <= WEIRD.len() + dp_targeted.len() { crate::rules::dp_params() } else { gen_params(&mut r) };
             let Ok(Ok(rw)) = catch_unwind(AssertUnwindSafe(|| rel.rewrite_with_differential_privacy(&w.relations, None, w.privacy_unit.clone(), p))) else { st.bump("dp_rewrite_failed"); continue };
             let empty_values = render(rw.relation()).contains("(VALUES )");
             (sql, rw.relation().clone(), &w.relations, if empty_values { "dp-empty-public-key-set" } else { "dp" })
         } else {
             let depth = r.range(0, 2) as u32;
-            let sql = { let mut g = QGen::new(&mut r, &w.specs); g.query(depth).0 };
+            let k = attempts - WEIRD.len() - dp_targeted.len();
+            let frag_targeted = ["SELECT VARIANCE(t.amount) AS v, AVG(t.amount) AS m FROM orders AS t", "SELECT t.status AS k, STDDEV(t.amount) AS s FROM orders AS t GROUP BY t.status"];
+            let sql = if k >= 1 && k <= frag_targeted.len() { frag_targeted[k - 1].to_string() } else { let mut g = QGen::new(&mut r, &w.specs); g.query(depth).0 };
             let Ok(Ok(rel)) = catch_unwind(AssertUnwindSafe(|| to_relation(&w, &sql))) else { continue };
             (sql, rel, &w.relations, "fragment")
         };
